@@ -9,6 +9,7 @@ import (
 	"os"
 	"sort"
 	"strings"
+	"syscall"
 	"time"
 
 	"github.com/fsnotify/fsnotify"
@@ -29,7 +30,7 @@ func init() {
 			{Name: "dir-histories", Fn: scnC20, Weight: 1},
 		},
 		Rule: "initial directory with 0-12 rotated files audit.log.N (N up to 999, non-contiguous, incl. >= 10 files and two/three-digit suffixes) plus the live file, 0-5 lines each (one in twelve ending in a carriage return of its own), optional partial tail; " +
-			"then 1-25 operations from {append k complete lines, append a prefix of a line, complete it, rotate (rename chain + create), truncate to zero, append a line longer than the read buffer, an event (write/create/chmod/remove/rename) for another file of the directory incl. rotated siblings audit.log.N / .gz / .bak, an attribute change (chmod) of the live file}, " +
+			"then 1-25 operations from {append k complete lines, append a prefix of a line, complete it, rotate (rename chain + create), truncate to zero, append a line longer than the read buffer, an event (write/create/chmod/remove/rename) for another file of the directory incl. rotated siblings audit.log.N / .gz / .bak, an attribute change (chmod) of the live file, one failing open (EMFILE) followed by the reader's own retry}, " +
 			"each followed by its file-system events and a run to quiescence; read-buffer knob {16,64,4096}; a consumer task drains Lines(); " +
 			"non-trivial = at least one rotation or truncation or partial append and at least 2 rotated files; distinct = distinct (history hash, schedule hash)",
 		Quick: 8000, Thorough: 250000,
@@ -39,8 +40,9 @@ func init() {
 // ---- SimFS ----
 
 type memFS struct {
-	files map[string][]byte
-	opens int
+	files        map[string][]byte
+	opens        int
+	failNextOpen error // the next Open fails with this error, once (a transient fault)
 }
 
 type memInfo struct {
@@ -71,6 +73,10 @@ type memFile struct {
 //go:norace
 func (m *memFS) Open(p string) (dirreader.SimFile, error) {
 	m.opens++
+	if err := m.failNextOpen; err != nil {
+		m.failNextOpen = nil
+		return nil, &fs.PathError{Op: "open", Path: p, Err: err}
+	}
 	if _, ok := m.files[p]; !ok {
 		return nil, &fs.PathError{Op: "open", Path: p, Err: fs.ErrNotExist}
 	}
@@ -320,9 +326,25 @@ func scnC20(rc *RunCtx) {
 			}
 			appendBytes(sb.String())
 			ops = append(ops, fmt.Sprintf("append(%d lines)", k))
+			if t.Choose(10, "open.fails.once") == 9 {
+				// a transient fault: the open that this event triggers fails once (too many open
+				// files), the reader's retry finds the same file
+				mfs.failNextOpen = syscall.EMFILE
+				ops = append(ops, "open-fails-once")
+				rc.Sim.Count("fs.open_error_once")
+				nontrivialOp = true
+			}
+			failed := mfs.failNextOpen != nil
 			if !deliver(fsnotify.Write, live) {
 				rc.Abort("event not consumed: %v", rc.Sim.Live())
 				return
+			}
+			if failed {
+				// the reader retries after a back-off of its own: give it simulated time
+				for i := 0; i < 8; i++ {
+					time.Sleep(500 * time.Millisecond)
+					settle()
+				}
 			}
 		case 2: // partial append
 			if pendingIdx >= 0 {
